@@ -68,7 +68,11 @@ def run(seed, n):
     cases, skipped = [], {}
     for i in range(n):
         for name, cls, f in methods:
-            cfgs = configurations(cls)
+            # the test volumes are integer label arrays: a fractional fill value would be truncated by NumPy
+            # (dtype casting is C18's subject, not the index maps compared here)
+            cfgs = [k for k in configurations(cls)
+                    if all(float(v) == int(v) for a, v in k.items()
+                           if a in ('value', 'mask_value', 'fill_value', 'mask_fill_value') and isinstance(v, (int, float)))]
             kw = rng.choice(cfgs)
             try:
                 obj = getattr(A, cls)(p=1.0, **kw)
